@@ -265,6 +265,24 @@ def decorated_variants(rnd, mod, x, chain, k=12):
     looks = {}
     for kch, v in util._char_map.items():
         looks.setdefault(v, []).append(kch)
+    # deterministic decorations that many compact() functions undo: zero padding, the country prefix, the canonical and the
+    # formatted presentation (kept only when compact() really maps them to the same value, below)
+    cc = mod.__name__.split('.')[1] if mod.__name__.count('.') >= 2 else ''
+    fixed = ['0' + x, '00' + x, '0' * 12 + x, '0' * 25 + x, x.lstrip('0'), x.lstrip(' 0')]
+    if cc:
+        fixed += [cc.upper() + x, cc.lower() + x, cc.upper() + ' ' + x, cc.upper() + '-' + x]
+    try:
+        fixed.append(mod.compact(x))
+        if hasattr(mod, 'format'):
+            fixed.append(mod.format(x))
+    except Exception:     # noqa: B902
+        pass
+    for y in fixed:
+        try:
+            if y != x and y not in out and mod.compact(y) == mod.compact(x):
+                out.append(y)
+        except Exception:     # noqa: B902
+            pass
     for _ in range(k):
         y = list(x)
         op = rnd.choice(['sep', 'case', 'look', 'ws', 'sep'])
